@@ -95,7 +95,7 @@ CallsTable(p) ==
   \cup {<<"seqscore", <<S, <<BgFor(p.k)>>, 2>>>> : S \in ProbeSeqs(p)}
   \cup {<<"seqscore", <<Sq(p.alph, [i \in DOMAIN p.rows |-> p.alph[1]]), <<>>, -1>>>>}
   \cup {<<"len", <<>>>>}
-  \cup (IF \A i \in DOMAIN p.alph : p.alph[i] \notin {"o1", "o2", "o3"} THEN {<<"str", <<>>>>} ELSE {})
+  \cup (IF Dom_StrLetters(p) THEN {<<"str", <<>>>>} ELSE {})
   \cup {<<"eq", <<o>>>> : o \in Others(p)}
   \cup {<<"set_symbols", <<p.k, Bump(p.rows)>>>>, <<"set_symbols", <<p.k + 1, Wider(p.rows)>>>>,
         <<"set_symbols", <<p.k, p.rows \o <<[j \in 1..p.k |-> 1]>>>>>>,
@@ -118,10 +118,10 @@ Steps        == {1, 2, -1, -2, 0}
 IndexForms(n) ==
        IntIdx((-n)..(n - 1))
   \cup SliceIdx(Bounds, Bounds, Steps)
-  \cup UNION {MaskIdx(m) : m \in (IF n = 0 THEN 0..1 ELSE (n - 1)..(n + 1))}
+  \cup UNION {MaskIdx(m) : m \in (IF n <= 1 THEN n..(n + 1) ELSE (n - 1)..(n + 1))}    \* Dom_Index
   \cup ArrIdx((-n - 1)..n, 2)
   \cup {<<"arr", s>> : s \in {<<0, 0, 0>>, <<-1, 0, -1, 0>>}}
-CallsIdx(p) == {<<"getitem", <<ix>>>> : ix \in IndexForms(Len(p.rows))}
+CallsIdx(p) == {<<"getitem", <<ix>>>> : ix \in {x \in IndexForms(Len(p.rows)) : Dom_Index(p, x)}}
 
 (* ---------------------------------------------------------------- the two-level enumeration *)
 Case(op, a, p) == [op |-> op, a |-> a, p |-> p]
